@@ -362,6 +362,13 @@ def c14(tr, st, c):
         met = d <= p
         if (met & (a1 > a0 * (1 + 1e-15))).any():
             out.append(viol("C14", t, "factor increased while demand was met"))
+        # under scarcity the factor moves by exactly (max - current) x scarcity / tau
+        scarce = (d > p) & (sc > 1e-12)
+        bad2 = scarce & ~np.isclose(a1, np.maximum(1.0, want), rtol=R, atol=0)
+        if bad2.any():
+            i = int(np.argmax(bad2))
+            out.append(viol("C14", t, "under scarcity the factor did not move by (max - current) x scarcity / tau", cell=i,
+                            before=float(a0[i]), after=float(a1[i]), expected=float(want[i]), scarcity=float(sc[i])))
     return out
 
 
@@ -437,6 +444,14 @@ def c20_state(tr, st, c):
             return out
         if c["fin"].any() and (s[c["fin"]] < -R * max(float(np.max(np.abs(s[c["fin"]]))), 1e-300)).any() and not crashed:
             out.append(viol("C20", t, f"negative inventory after {name} without crash"))
+            return out
+    pe = st["phases"].get("events_pre")
+    if pe and pe["post"] is not None and not pe.get("exc"):
+        lost = pe["post"]["econ"]["lost"]
+        if lost is not None and (lost > c["K"] * (1 + R) + 1e-300).any():
+            i = int(np.argmax(lost - c["K"]))
+            out.append(viol("C20", t, "an impact larger than the capital stock of an industry was accepted", cell=i,
+                            destroyed=float(lost[i]), capital=float(c["K"][i])))
             return out
     for ph_name in ("events_pre", "events_post"):
         ph = st["phases"].get(ph_name)
